@@ -5,7 +5,6 @@ import (
 	"go/ast"
 	"go/constant"
 	"go/types"
-	"golang.org/x/tools/go/types/typeutil"
 	"path/filepath"
 	"regexp"
 	"sort"
@@ -839,7 +838,7 @@ func checkExtractOutputFile(p *core.Program, r *core.Report) {
 				if !ok {
 					return true
 				}
-				fn, _ := typeutil.Callee(info, call).(*types.Func)
+				fn, _ := flow.Callee(info, call).(*types.Func)
 				if fn == nil {
 					return true
 				}
